@@ -428,10 +428,18 @@ class Run:
         self.nviol_total = getattr(self, "nviol_total", 0) + 1
         if self.nviol_total <= 80:
             log("violation[%s]: %s" % (kind, what[:400].replace("\n", "\\n")))
-        # keep at most a handful of replays per run
+        # keep at most a handful of replays per run; one with a failing input displaces one without
         if len(self.violations) >= 5:
+            victim = None
+            if not no_input:
+                victim = next((k for k in range(len(self.violations) - 1, -1, -1)
+                               if self.violations[k] is not None and self.violations[k]["no_input"]), None)
+            if victim is None:
+                self.violations.append(None)
+                return
             self.violations.append(None)
-            return
+            self.violations[victim] = None
+            self._replace_at = victim
         rdir = os.path.join(VERIF, "replays", self.prop)
         os.makedirs(rdir, exist_ok=True)
         body = dict(replay)
@@ -441,7 +449,12 @@ class Run:
         path = os.path.join(rdir, h + ".json")
         with open(path, "w") as f:
             json.dump(body, f, indent=1)
-        self.violations.append({"path": path, "no_input": no_input, "what": what})
+        slot = getattr(self, "_replace_at", None)
+        if slot is not None:
+            self.violations[slot] = {"path": path, "no_input": no_input, "what": what}
+            self._replace_at = None
+        else:
+            self.violations.append({"path": path, "no_input": no_input, "what": what})
 
     def finish(self, build_info, audit_res, extra_cov=None, assumptions=None, trusted=None, checker_cmd=None):
         self.cov["distinct_nontrivial"] = len(self._distinct)
@@ -469,7 +482,7 @@ class Run:
         for k, w in sorted(self.known_hits.items()):
             print("KNOWN-FINDING: property=%s %s" % (self.prop, w))
         seen = set()
-        for v in self.violations:
+        for v in sorted([x for x in self.violations if x is not None], key=lambda x: x["no_input"]):
             if v is None or v["path"] in seen:
                 continue
             seen.add(v["path"])
